@@ -28,6 +28,7 @@ Ops (first argument is always the chain name):
                                          history's outcome (and its shrunk replay) depends on that history alone.
 """
 import contextlib
+import multiprocessing as mp
 import random
 import sys
 import hashlib
@@ -342,6 +343,19 @@ def minimal_msg(kind):
     }.get(kind, (kind,))
 
 
+class HarnessError(RuntimeError):
+    """a bug of this harness (not of the code under test): stops the check with an infrastructure error"""
+
+
+def harness_fail(msg):
+    """exit 2 (infrastructure), never a VIOLATION: in the main process print and stop; inside a worker raise, the
+    framework records the case and `signature()` stops the run once it is back in the main process"""
+    if mp.parent_process() is None:
+        print('INFRA-ERROR: C18 harness bug (not a finding): ' + msg)
+        raise SystemExit(2)
+    raise HarnessError(msg)
+
+
 class C18(Prop):
     id = 'C18'
     title = 'P2P messages: framing, payload layout and stream parsing exact and invertible'
@@ -561,6 +575,13 @@ class C18(Prop):
                 del sys.modules[m]
         self.setup()
 
+    def same_values(self, obj, text):
+        """the live object's field values in text form equal `text` (bool fRelay counts as its integer)"""
+        try:
+            return show_msg(self.from_obj(obj)) == text
+        except Exception:  # noqa: BLE001 - unreadable object (a mutated tree may do anything): not a shadow bug
+            return True
+
     def run_hist(self, steps):
         self.fresh_import()
         regs, streams, out = {}, {}, []
@@ -577,6 +598,8 @@ class C18(Prop):
                     self.bitcoin.SelectParams(hd[1])
                 elif hd[0] == 'N':
                     regs[hd[1]] = self.to_obj(parse_msg(parts[1]), int(parts[2]))
+                    if not self.same_values(regs[hd[1]], parts[1]):
+                        return 'harness:field-values-differ after ' + st[:60]
                 elif hd[0] == 'E':
                     if hd[1] not in regs:
                         continue
@@ -584,6 +607,11 @@ class C18(Prop):
                         H.apply_edit(regs[hd[1]], parts[1], self.live_conv)
                     except Exception as e:  # noqa: BLE001 - an edit the live object refuses is an observation
                         out.append('editerr:' + exc_family(e))
+                        continue
+                    # the live object must now carry exactly the field values the model is asked about: a
+                    # difference here is a bug of the generator's value tracking, never a finding
+                    if not self.same_values(regs[hd[1]], parts[2]):
+                        return 'harness:field-values-differ after ' + st[:60]
                 elif hd[0] == 'F':
                     out.append(guarded(lambda: frame(hd[1]).hex()) if hd[1] in regs else 'noreg')
                 elif hd[0] == 'S':
@@ -673,8 +701,15 @@ class C18(Prop):
         Frames of in-domain messages, wrong magic, wrong checksum, truncation and impossible lengths are always
         compared strictly, entry by entry, including the stream position."""
         op = c['op']
+        if io.startswith('harness:'):
+            # the generator's value tracking disagrees with the live object: an infrastructure error.  Inside a
+            # worker the case is recorded (signature() then stops the run in the main process with exit 2); in the
+            # main process (replay) raise at once.  Never a VIOLATION.
+            if mp.parent_process() is None:
+                harness_fail(io + ' | ' + c.line[:300])
+            return False
         if op == 'c18.hist':
-            return io == mo          # histories use in-domain values only: every step is compared strictly
+            return io == mo          # every step is compared strictly
         if op in ('c18.frame', 'c18.frombytes'):
             return io == mo[2:] or mo[:2] == 'O:'
         ii, mm = io.split('~'), mo.split('~')
@@ -761,13 +796,19 @@ class C18(Prop):
             yield mk('c18.parse', ch, (stream + stream[:cut][:rng.choice([1, 23, 24, 25, 4000])]).hex(),
                      tag='stream-trailing-partial')
 
-        # (c) exhaustive corruption / truncation / length fields on small frames
+        # (c) exhaustive corruption / truncation / length fields on small frames.  The enumeration that is
+        # partitioned by `idx % nshards` (minimal frames x chains x positions / cut points / one length-field
+        # block per frame) is fixed data: nothing drawn from the per-shard rng influences its order or size, so
+        # every shard assigns the same index to the same member (checked by harness/selftests/c18_shards.py).
+        # The rng only picks the replacement values at a position that this shard owns.
         small = []
         for i, kind in enumerate(NAMES):
             for ci, ch in enumerate(CHAINS):
                 small.append((ch, minimal_msg(kind)))
+        # per-shard random small frames (no index partition applies to them); argument-free types would only
+        # repeat the minimal frames above in every shard
         extra = [(rng.choice(CHAINS), gen_msg(rng, kind, small=True)) for kind in NAMES
-                 for _ in range(30 if big else 1)]
+                 if kind not in ('verack', 'getaddr', 'mempool') for _ in range(30 if big else 1)]
         sm = [(ch, m, b) for (ch, m), b in zip(small + extra, self.model_frames(small + extra)) if b is not None]
         idx = 0
         for si, (ch, m, b) in enumerate(sm):
